@@ -488,10 +488,12 @@ impl Name {
         mapping: NameMap,
         pos: Position,
     ) -> TypeResult<NameMap> {
-        self.names.iter().try_fold(mapping, |acc, s_n| {
+        // Later insertions overwrite earlier ones: fold in a fixed order, not in HashSet order.
+        self.names.iter().sorted().try_fold(mapping, |acc, s_n| {
             other
                 .names
                 .iter()
+                .sorted()
                 .try_fold(acc, |acc, o_n| s_n.temp_map(&o_n.variant, acc, pos))
         })
     }
